@@ -76,6 +76,14 @@ Theorem C29_history_invariant : forall lbs lbm ops s, inv_all s -> inv_all (run 
 Proof. intros. apply inv_all_run. assumption. Qed.
 Print Assumptions C29_history_invariant.
 
+(* ALL histories: an execution is recorded as completed only together with its output - every
+   completed record has its window's row in the destination measurement; a run whose aggregation
+   query OR whose destination write fails is a failed run (C29_failure_no_advance applies). *)
+Theorem C29_completed_has_rows : forall lbs lbm ops,
+  let s := run lbs lbm init ops in forallb (has_row (dest s)) (execs s) = true.
+Proof. intros lbs lbm ops. apply rows_run. reflexivity. Qed.
+Print Assumptions C29_completed_has_rows.
+
 (* the label of a scheduled run that starts at the pointer is exactly the window start *)
 Theorem C29_label : forall lbs lbm s l now,
   active s = true -> lp s = Some l -> l * ns < now ->
